@@ -71,8 +71,16 @@ class Expander:
         self.p = None
         self.calls = 0
 
+    # resource fence of one expander process: a non-terminating expansion must show up as a failure of totality, not take the
+    # machine down (address space 6 GiB, 60 s per call)
+    MEM_LIMIT = 6 << 30
+    CALL_TIMEOUT = 60
+
     def _start(self):
-        self.p = subprocess.Popen([self.bin], stdin=subprocess.PIPE, stdout=subprocess.PIPE, stderr=subprocess.DEVNULL)
+        def fence():
+            import resource
+            resource.setrlimit(resource.RLIMIT_AS, (Expander.MEM_LIMIT, Expander.MEM_LIMIT))
+        self.p = subprocess.Popen([self.bin], stdin=subprocess.PIPE, stdout=subprocess.PIPE, stderr=subprocess.DEVNULL, preexec_fn=fence)
 
     def call(self, mode, a, b):
         if self.p is None or self.p.poll() is not None:
@@ -80,6 +88,14 @@ class Expander:
         ab, bb = a.encode(), b.encode()
         self.p.stdin.write(("%s %d %d\n" % (mode, len(ab), len(bb))).encode() + ab + bb)
         self.p.stdin.flush()
+        import select
+        ready, _, _ = select.select([self.p.stdout], [], [], self.CALL_TIMEOUT)
+        if not ready:
+            self.p.kill()
+            self.p.wait()
+            self.p = None
+            self.calls += 1
+            return {"status": "crash", "note": "expansion did not return within %d s (process killed)" % self.CALL_TIMEOUT}
         line = self.p.stdout.readline()
         self.calls += 1
         if not line:
